@@ -188,7 +188,7 @@ theorem ids_nodup_select (d : List (Line Pos)) (lo hi : Int)
 theorem collocate_spec (dist : Pos → Pos → α) (hsym : ∀ a b, dist a b = dist b a)
     (T : TreeFn Pos α) (hT : TreeOK dist T) (shuf : Nat → List Pos → List Nat)
     (hshuf : ValidShuf shuf) (tn : Tuning) (st : SState Pos) (hinv : Inv st)
-    (p s : List (Line Pos)) (hp : p ≠ []) (hs : s ≠ []) (mi : Int) (r : α) (start stop : Option Int)
+    (p s : List (Line Pos)) (mi : Int) (r : α) (start stop : Option Int)
     (hcut : ∀ lo hi, commonWindow p s mi start stop = some (lo, hi) →
       CutOK tn (dropNan (flatten (selectLines p lo hi))) (dropNan (flatten (selectLines s lo hi)))) :
     ∃ st' out, collocate T shuf tn st p s mi r start stop = (st', .ok out) ∧ Inv st' ∧
@@ -196,6 +196,21 @@ theorem collocate_spec (dist : Pos → Pos → α) (hsym : ∀ a b, dist a b = d
       (out = none ↔ ∀ i j iv d, ¬ Collocated dist r mi start stop p s i j iv d) ∧
       (((flatten p).map (·.id)).Nodup → ((flatten s).map (·.id)).Nodup →
         ((outPairs out).map (·.1)).Nodup) := by
+  by_cases hps : p = [] ∨ s = []
+  · -- an empty dataset: `_prepare_data` returns (None, None)
+    have hw : commonWindow p s mi start stop = none := by
+      rcases hps with h | h <;> subst h <;> simp [commonWindow, minList]
+    have hno : ∀ i j iv d, ¬ Collocated dist r mi start stop p s i j iv d := by
+      rintro i j iv d ⟨x, hx, y, hy, _⟩
+      rcases hps with h | h
+      · subst h; simp [flatten] at hx
+      · subst h; simp [flatten] at hy
+    refine ⟨st, none, ?_, hinv, fun i j iv d => by simp [outPairs, hno i j iv d],
+      ⟨fun _ => hno, fun _ => rfl⟩, fun _ _ => by simp [outPairs]⟩
+    unfold collocate prepare
+    simp only [hw]
+  have hp : p ≠ [] := fun h => hps (Or.inl h)
+  have hs : s ≠ [] := fun h => hps (Or.inr h)
   obtain ⟨lo, hi, hw⟩ := commonWindow_isSome p s mi start stop hp hs
   by_cases hempty : ((selectLines p lo hi).isEmpty || (selectLines s lo hi).isEmpty) = true
   · have hno : ∀ i j iv d, ¬ Collocated dist r mi start stop p s i j iv d := by
